@@ -188,5 +188,7 @@ func localIdentOfValue(v local) ir.LocalIdent {
 	if v.IsUnnamed() {
 		return ir.LocalIdent{LocalID: v.ID()}
 	}
-	return ir.LocalIdent{LocalName: v.Name()}
+	// Note: Name returns numeric names in quoted form (e.g. `"42"`); recover the
+	// name from the identifier instead, as done for references (see localIdent).
+	return ir.LocalIdent{LocalName: unquote(v.Ident()[len("%"):])}
 }
